@@ -417,6 +417,11 @@ func runC14live(t *vf.T, c c14live) {
 	}
 	// generous: the manager settles within milliseconds, but on a starved host its goroutine may
 	// not run for seconds; a manager that never published its state cannot be judged
+	if w.snapshots() == 0 {
+		// a history without any request never made the manager's loop turn after this monitor
+		// attached (its first turn can precede that): a request cancelled at once makes it turn
+		mgr.Offer(0, 1).Cancel()
+	}
 	snap, ok := w.quiescent(true, 30*time.Second)
 	if !ok && w.snapshots() == 0 {
 		t.Inconclusive("the manager loop published no state within 30 s")
